@@ -524,6 +524,44 @@ func HarnessC12Arrays() {
 	verifReach("end")
 }
 
+// HarnessC12LongArrays: arrays long enough to cross size thresholds (9, 17, 33, 65 or 129 elements):
+// distinct strings in descending order (so any sort moves something), optionally one duplicate pair and
+// optionally one non-string element at solver-chosen positions, under uniqueItems, through the schema
+// validators, the helper and the csv parameter / header validators: no element is moved or replaced.
+func HarnessC12LongArrays() {
+	n := []int{9, 17, 33, 65, 129}[verifChoose(5)]
+	arr := make([]interface{}, 0, n)
+	for i := 0; i < n; i++ {
+		arr = append(arr, "w"+string(rune('z'-i/26))+string(rune('z'-i%26)))
+	}
+	switch verifChoose(3) {
+	case 1: // a duplicate pair: last element repeats the first or the middle one
+		arr[n-1] = arr[verifChoose(2)*(n/2)]
+	case 2: // one element that is not a string, first, middle or last
+		arr[verifChoose(3)*(n-1)/2] = 2.0
+	}
+	s := spec.Schema{}
+	s.UniqueItems = true
+	if verifBool() {
+		l := strSchema("", 5)
+		s.Items = &spec.SchemaOrArray{Schema: &l}
+	}
+	reg := &verifRegistry{}
+	verifFreeze(arr, "instance")
+	verifFreeze(&s, "schema")
+	_ = AgainstSchema(&s, arr, reg)
+	_ = NewSchemaValidator(&s, nil, "", reg, SwaggerSchema(true)).Validate(arr)
+	_ = UniqueItems("p", "body", arr)
+	p := spec.QueryParam("q").CollectionOf(spec.NewItems().Typed("string", ""), "csv")
+	p.UniqueItems = true
+	_ = NewParamValidator(p, reg).Validate(arr)
+	h := spec.ResponseHeader().CollectionOf(spec.NewItems().Typed("string", ""), "csv")
+	h.UniqueItems = true
+	_ = NewHeaderValidator("X", h, reg).Validate(arr)
+	verifUnfreeze()
+	verifReach("end")
+}
+
 // HarnessC17Composite: nil <=> valid; otherwise a CompositeError, code 422, whose messages are exactly
 // the result's messages, without duplicates; every field-level error is named by an extension of the root path.
 func HarnessC17Composite() {
